@@ -1,11 +1,11 @@
 #!/bin/bash
 # runs every seeded change against the quick check of the property it targets (or the check named in seeded/<id>/check), four at a
 # time, each in its own scratch worktree and scratch copy of /verif (runmut2.sh): /repo and /verif/evidence are not touched.
-cd /verif
+cd ${VERIF_SRC:-/verif}
 one() {
   d=$1; n=$(basename $d); p=${n:0:3}
   [ -f $d/check ] && p=$(cat $d/check)
-  out=$(./runmut2.sh /verif/$d/patch.diff $p 2>&1 | tail -2 | tr '\n' ' ' | cut -c1-170)
+  out=$(./runmut2.sh $PWD/$d/patch.diff $p 2>&1 | tail -2 | tr '\n' ' ' | cut -c1-170)
   [ -f $d/expect-held ] && out="$out (expected to hold: $(cat $d/expect-held))"
   echo "$n -> $p: $out"
 }
